@@ -8,18 +8,18 @@ IDS = ["C%02d" % i for i in range(1, 21)]
 
 # id -> (level text, level note / trusted base, technique, design section)
 CHECKS = {
- "C01": ("bounded-exhaustive exploration of the real non-shear contribution classes on a duck-typed calculator: BFS over the deviation lattice of 10 input alphabets (<=2 deviations quick; thorough: the FULL product on the five small shapes and <=3 deviations on all shapes), every configuration compared with 40-digit numerical derivatives of the free energy itself",
+ "C01": ("bounded-exhaustive exploration of the real non-shear contribution classes on a duck-typed calculator: BFS over the deviation lattice of 10 input alphabets (<=2 deviations quick; thorough: the FULL product on the five small shapes and <=3 deviations on all shapes), every configuration compared with 40-digit numerical derivatives of the free energy itself; mode B: all ordered sequences of <=3 (120 orders thorough) property reads on one contribution object vs fresh objects, and sequences of 2-3 calculator-like objects used and released in one process",
          "alphabets of analytic spectra (exact gamma, V dgamma/dV); CODATA constants from scipy; mpmath differentiation; values outside the alphabets are covered only through the formulas' structure",
          "deviation-bounded exhaustive enumeration of input alphabets on the implementation, oracle = mpmath derivatives of F_ph", "6 C01"),
- "C02": ("same lattice as C01 plus heat-capacity fields for all 9 ordered non-shear index pairs; all 15 shear keys through the real task list (full set, singletons, pairs) for adiabatic==isothermal bit-identity",
+ "C02": ("same lattice as C01 plus heat-capacity fields for all 9 ordered non-shear index pairs; all 15 shear keys through the real task list (full set, singletons, pairs) for adiabatic==isothermal bit-identity; C_V fields from 1e-11 to 4e-2; mode B: all sequences of <=3 states evaluated on ONE calculator-like object (T grid / spectrum / C_V replaced) and on objects released one after the other",
          "as C01; C_V is a supplied positive field", "deviation-bounded exhaustive enumeration + exhaustive key enumeration through the real task list", "6 C02"),
- "C03": ("complete over a basis: 15 shear keys x 4 strain fields x (21 unit tensors + 210 pairwise sums + 1 generic) with exact components from an independent einsum rotation, plus all 48 sign/column-order variants of the eigenframe; linear map => exact on a basis is exact everywhere",
+ "C03": ("complete over a basis: 15 shear keys x 4 strain fields x (21 unit tensors + 210 pairwise sums + 1 generic) with exact components from an independent einsum rotation, plus all 48 sign/column-order variants of the eigenframe; linear map => exact on a basis is exact everywhere; 6 strain fields incl. a hydrostatic row among anisotropic rows; unit and generic tensors also on numeric scales 1e-12, 1e-7, 1e9",
          "numpy einsum/LAPACK; frame taken from the implementation after independent validation", "exhaustive enumeration over a basis of the 21-dim tensor space x all keys", "6 C03"),
- "C04": ("explicit-state exploration of request histories on the real task list: all ordered requests of length <=2 (<=3 thorough), complements, 22 (+210) orders of the full set, all 6 axis relabellings, 5 strain fields; thorough: all 2^15 shear subsets with/without non-shear keys; per-key values compared across all histories before merging, against sam_ref, isotropy, dependency order",
+ "C04": ("explicit-state exploration of request histories on the real task list: all ordered requests of length <=2 (<=3 thorough), complements, 22 (+210) orders of the full set, all 6 axis relabellings, 5 strain fields; thorough: all 2^15 shear subsets with/without non-shear keys; per-key values compared across all histories before merging, against sam_ref, isotropy, dependency order; 7 strain fields incl. two equal fractions and e1=(e2+e3)/2; ONE task-list object resolved and calculated 2-3 times vs fresh lists",
          "duck-typed calculator; sam_ref reference recursion; 21! orders not enumerated (cone-independence premise checked per execution)", "history BFS (operation sequences) on the implementation with differential + reference oracles", "6 C04"),
- "C05": ("bounded-exhaustive exploration of the real Calculator on generated input directories: BFS over the deviation lattice of 9 data-set/configuration alphabets (<=2 deviations quick, <=3 thorough), every run compared key by key with an independent pipeline (own parsers, own V*c fit in Eulerian strain, own strain rule, own qha instance whose arrays must match bit for bit, sam_ref); level<=1 configurations re-run with the static table scaled (phonon part independent of static values)",
+ "C05": ("bounded-exhaustive exploration of the real Calculator on generated input directories: BFS over the deviation lattice of 9 data-set/configuration alphabets (<=2 deviations quick, <=3 thorough), every run compared key by key with an independent pipeline (own parsers, own V*c fit in Eulerian strain, own strain rule, own qha instance whose arrays must match bit for bit, sam_ref); level<=1 configurations re-run with the static table scaled (phonon part independent of static values); QHA fit orders 3-5, decoy same-named inputs in the cwd, static-table row orders; mode B: all ordered pairs (triples thorough) of 6 settings variants run in ONE process on the same files vs fresh interpreters",
          "qha trusted as a library; spectra polynomial in ln V so the interpolant is exact; finite-difference pieces accepted within twice the reference's own analytic-vs-grid difference", "deviation-bounded exhaustive enumeration of configurations on the implementation, oracle = independent reference pipeline", "6 C05"),
- "C06": ("complete product of 3 data sets x 3 temperature grids x 4 inside pressure grids: every modulus/compliance/average/velocity/volume at every (T,P) node against an independent spline along the isotherm, pressure round trip, exact conversion of cubic-in-P fields, attribute spellings select the right tensor; 51 overshooting grids (>=2x reach, and between the coldest and hottest isotherm's reach) must be rejected",
+ "C06": ("complete product of 3 data sets x 3 temperature grids x 4 inside pressure grids: every modulus/compliance/average/velocity/volume at every (T,P) node against an independent spline along the isotherm, pressure round trip, exact conversion of cubic-in-P fields, attribute spellings select the right tensor; 51 overshooting grids (>=2x reach, and between the coldest and hottest isotherm's reach) must be rejected; every returned table re-verified after all others were requested (no shared buffer), sparse sampling strides, grids with P_MIN>0 overshooting by less than P_MIN",
          "qha's P(T,V), V(T,P) trusted; tolerance 25% of the local cell variation", "exhaustive enumeration of grid configurations x all quantities x all grid nodes on the implementation", "6 C06"),
  "C16": ("small-scope complete merge exploration: all 144^2 (user, default) dictionary pairs over {a,b}x{1,2} depth<=2 (21609x144 thorough) against a leaf-path reference, input snapshots, idempotence; every leaf subset of the shipped settings against the packaged defaults; 395 single-field perturbations of every documented field x 4 base files with verdicts transcribed from the statement/docs; YAML/JSON spellings; operation sequences (<=3) for module-state isolation",
          "verdict table transcribed by hand from the property statement and docs (not from the schema); cases the statement leaves open are executed but not asserted", "small-scope exhaustive enumeration of nested dictionaries and single-field perturbations + history BFS", "6 C16"),
@@ -29,7 +29,7 @@ CHECKS = {
          "tables_ref writer byte-identical to qha's save_x_tp (selftest); spline error bound from the analytic derivatives", "exhaustive enumeration of request positions/layouts through the real CLI, oracle = analytic table functions", "6 C19"),
  "C20": ("evec_sort: all n! permutations x all 4^n phase vectors x 5 unitary bases x 7 perturbation kinds x 3 containers for n=2..4 (n=5 thorough), cyclic shifts and transpositions for n=12, 60; arbitrary orthonormal pairs incl. exact-zero overlaps for the 'always a permutation' clause; all 242 off-by-one dimension mismatches; disp2eig over bases x masses x scalings x shapes; evec_load over n_q x n_p with a distinct number in every slot",
          "deterministic unitary bases and perturbations (no randomness); matdyn writer byte-identical to the shipped test files (selftest)", "exhaustive enumeration of permutations x phase vectors (bounded n) on the implementation", "6 C20"),
- "C07": ("complete product of 9 crystal-system tensor shapes x 3 magnitudes x zero-extras x 2 grids x 3 cell masses x 2 key orders on a duck calculator driving the real _calculate_compliances / CijVolumeBaseInterface, plus 24 real Calculators; at every positive-definite grid point K/G Voigt, Reuss, Hill vs C_iijj, C_ijij, S_iijj, S_ijij of the full fourth-rank tensor, bounds, s*c=1, rho v^2 identities in SI",
+ "C07": ("complete product of 9 crystal-system tensor shapes x 3 magnitudes x zero-extras x 2 grids x 3 cell masses x 2 key orders on a duck calculator driving the real _calculate_compliances / CijVolumeBaseInterface, plus 24 real Calculators; at every positive-definite grid point K/G Voigt, Reuss, Hill vs C_iijj, C_ijij, S_iijj, S_ijij of the full fourth-rank tensor, bounds, s*c=1, rho v^2 identities in SI; all 4096 subsets of the twelve non-orthotropic components; all ordered sequences of <=2 (<=3) attribute reads (incl. 4-index names) on one interface vs fresh objects; ordered pairs/triples of real Calculators alive together",
          "tensor_ref (rotational invariants selftest); CODATA constants; stiffness values on the stated alphabets", "exhaustive enumeration of tensor-shape/grid/mass alphabets on the implementation, oracle = full fourth-rank tensor algebra", "6 C07"),
  "C11": ("full product of 24 (method, admissible order) pairs x n_V {6,7,8,12} (+{5,9,10} thorough) x 7 data laws (power law, polynomial in ln V of degree 1-5, Morse-like) x {inside, x1.2 extended grid} x shapes incl. square (3,3): exactness for power-law (and polynomial for lsq_poly) data against analytic triples, mutual consistency of the triple through integral identities, Gamma acoustic slots zero, no slot mixing, no NaN; mode plot n=0,1,2 through the real Calculator._interpolate_modes + ModePlotter with a recording axes",
          "analytic laws validated by 40-digit differentiation (selftest); quadrature on 2001 points with an a-posteriori bound", "exhaustive enumeration of interpolation configurations on the implementation, oracle = analytic triples and quadrature identities", "6 C11"),
@@ -37,17 +37,17 @@ CHECKS = {
          "static_ref (own fit, own inverse interpolation, own symmetry fill); bounds are Taylor remainders propagated through the spline", "deviation-bounded / full-product exhaustive enumeration of CLI configurations on the implementation", "6 C18"),
  "C12": ("deviation lattice over 24 (method, admissible order) pairs x 10 system settings x 5 temperature grids (DT 0.5..500 K, T_MIN>=0) x 3 component sets x 3 spectra x shapes x lattice block, every configuration schema-validated and run through the real Calculator (<=2 deviations quick; full product of the 5 core dimensions thorough): dtype float64, finite isothermal everywhere, adiabatic where C_V>0 or T=0, averages/velocities where positive definite, zero gap at T=0, low-T limit",
          "well-formed synthetic inputs; positive definiteness by Cholesky of the reported stiffness", "deviation-bounded / full-product exhaustive enumeration of valid configurations on the implementation", "6 C12"),
- "C13": ("metamorphic exhaustive enumeration on 3 base data sets: all orders of q-points 2..n, mode orders (all n! thorough; generators quick), weight scales, static column orders (all for 3; transpositions+rotations+reversal for 9/13), upper case, static row orders and phonon volume-block orders (all 120 thorough); every re-presented run compared with the base run on every modulus on both grids and on K, G, v_p, V(T,P); volume-block reorder: same numbers or an error",
+ "C13": ("metamorphic exhaustive enumeration on 3 base data sets: all orders of q-points 2..n, mode orders (all n! thorough; generators quick), weight scales, static column orders (all for 3; transpositions+rotations+reversal for 9/13), upper case, static row orders and phonon volume-block orders (all 120 thorough); every re-presented run compared with the base run on every modulus on both grids and on K, G, v_p, V(T,P); volume-block reorder: same numbers or an error; a 300-q-point base, one base per documented interpolator for the volume-block clause, weight scale factors 1e-12..1e9",
          "equal to rounding = 1e-9 of scale; acoustic modes identified by position are not moved", "exhaustive enumeration of permutation groups (bounded size) as re-presentations of the same data, differential oracle", "6 C13"),
- "C14": ("subprocess space: cij run under PYTHONHASHSEED {0,1,2}/{0..15,random} x 5 working-directory contents x 3 data sets, byte comparison with golden runs; history space: all valid operation sequences of depth <=3 (<=4 thorough) over {new A/B, read(x,p), write(x), fill, cfg} on real objects in long-lived workers + all 35 interleavings of two calculators' operation lists; every write byte-identical to golden, every read bit-identical to a fresh process and to itself, module-level state digests constant, fill idempotent",
+ "C14": ("subprocess space: cij run under PYTHONHASHSEED {0,1,2}/{0..15,random} x 5 working-directory contents x 3 data sets, byte comparison with golden runs; history space: all valid operation sequences of depth <=3 (<=4 thorough) over {new A/B, read(x,p), write(x), fill, cfg} on real objects in long-lived workers + all 35 interleavings of two calculators' operation lists; every write byte-identical to golden, every read bit-identical to a fresh process and to itself, module-level state digests constant, fill idempotent; reads of both pressure-base tensors, data sets writing the same properties in different units, run-static and cij fill as earlier commands in the process, runs started from another directory next to decoy inputs",
          "goldens from fresh interpreters; hash seeds and cwd contents are finite menus; pint caches excluded from the state digest", "history BFS over operation sequences + all order-preserving interleavings of two operation lists on the implementation; subprocess enumeration of hash seeds x cwd contents", "6 C14"),
- "C15": ("complete product of 4 grids x 3 component sets x 2 bases: every keyword and alias of the writer rules written through the real ResultsWriter and re-read by an independent parser: file names, row/column labels on the requested grids in GPa / A^3, values = in-memory arrays in the documented unit, aliases byte-identical, adiabatic vs isothermal selection, one file per component, unit and file-name overrides, write_output() section handling",
+ "C15": ("complete product of 4 grids x 3 component sets x 2 bases: every keyword and alias of the writer rules written through the real ResultsWriter and re-read by an independent parser: file names, row/column labels on the requested grids in GPa / A^3, values = in-memory arrays in the documented unit, aliases byte-identical, adiabatic vs isothermal selection, one file per component, unit and file-name overrides, write_output() section handling; 6 grids incl. DT_SAMPLE != DT; all ordered sequences of <=2 (<=3) requests from a 10-letter alphabet through ONE writer, request objects unchanged, also after the same objects were written on the other base",
          "expected names/units transcribed from the documented table; CODATA unit factors", "exhaustive enumeration of keywords x bases x grids on the implementation, oracle = independent parser + in-memory results", "6 C15"),
  "C08": ("part 1 decided exactly: for each of the 9 systems the Laue rotation group is closed by BFS from exact generators over Q(sqrt3) (orders 1/2/4/4/8/3/6/12/24), every group element x every basis vector of the relations' null space (inclusion) and the Reynolds average of each of the 21 unit tensors against every packaged relation (reverse inclusion), dimensions 21/13/9/7/6/7/6/5/3; part 2: fill_cij on every sufficient subset of the non-vanishing components (all 5584 in thorough; 4 small systems complete + boundary layers in quick) x n_V {1,2,5} returns the invariant tensor; apply_symetry_on_elast_data on minimal/full sets",
          "sympy exact arithmetic; sufficiency decided by rank of the coordinate projection of the invariant subspace (laue_ref), independent of fill_cij", "explicit-state closure of finite groups + exhaustive subset enumeration on the implementation, exact linear-algebra oracle", "6 C08"),
  "C09": ("refusal <=> (insufficient and not ignore_rank) or (inconsistent and not ignore_residuals) over every subset of the non-vanishing components of 8 systems (thorough: 483456 fills; quick: small systems complete + boundary layers) x 4 flag combinations x {consistent, inconsistent below/above tolerance}; presentation deviation lattice (dtype, case, column order, extra columns, cwd contents incl. directory named like the system and user-written relations file, drop_atol) <=2 (<=3 thorough); the cij fill command; depth-3 chains fill/CLI; on acceptance: movement and relation bounds, pass-through, drop rule, presentation independence",
          "laue_ref sufficiency oracle; perturbations >= 8x away from the tolerance under both readings of 'residual'; triclinic subsets limited to |S| 19..21", "exhaustive subset x flag enumeration + deviation lattice + depth-3 operation chains on the implementation", "6 C09"),
- "C10": ("complete enumeration of the finite domain (81 tuples, 36 Voigt pairs, all spellings, 81x81 equality pairs, out-of-range neighbours) with the orbit graph explored by BFS; decides the property outright because the domain is finite",
+ "C10": ("complete enumeration of the finite domain (81 tuples, 36 Voigt pairs, all spellings, 81x81 equality pairs, out-of-range neighbours) with the orbit graph explored by BFS; decides the property outright because the domain is finite; numpy integer spellings; 694 out-of-range neighbours",
          "reference orbits from voigt_ref (union of generator images); CPython hashing", "exhaustive enumeration of the finite index domain + BFS of the orbit graph against a reference quotient", "6 C10"),
 }
 PENDING_REASON = "check not built yet (work in progress; planned per DESIGN.md §6)"
